@@ -8,6 +8,17 @@ LEVEL = "model_checking"
 def run(rep, tier):
     wd = common.workdir("C03")
     quick = tier == "quick"
+    # design level: the streaming packer's carry chain (pack_core / combine) implements the bit-reversed packing statement
+    # for every presence pattern and log_batch, two rounds on one packer; negative control: without the bit reversal it must fail
+    r = common.tlc("Core/MC_Packer", workers=6, wd=wd, timeout=1800)
+    common.tlc_must(r, "MC_Packer")
+    rep.add_tlc(r, "MC_Packer")
+    if not r.ok:
+        rep.violation("spec:MC_Packer:" + str(r.invariant), "invariant %s of MC_Packer fails in the specification" % r.invariant, {"tlc": r.out[-3000:]})
+        return
+    rn = common.tlc("Core/MC_Packer", cfg="Core/MC_Packer_neg", workers=6, wd=wd, timeout=1800)
+    if rn.ok or rn.invariant != "AllOK":
+        raise ToolError("MC_Packer negative control (no bit reversal) was not refuted:\n" + rn.out[-1500:])
     path, n_all, n = kspipe.gen_descs(rep, wd, "Core/Gen_C03", "Core/Gen_C03_quick" if quick else "Core/Gen_C03_thorough", "c03", per_op=40 if quick else 600)
     events, bad = kspipe.run_and_validate(rep, wd, path, "c03", shards=12 if quick else 14)
     nb = kspipe.report(rep, events, bad, {"sem", "key"}, "c03")
@@ -35,7 +46,7 @@ def run(rep, tier):
     rep.rule = ("%d of the %d behaviours enumerated by TLC from Gen_C03 (per-operation stratified, seeded): keygen -> encrypt -> operation on 4 back-ends x 2 fills, N=8; "
                 "KsTrace recomputes from raw limbs and the clear secrets (a) the key rows' phases (KeyOK), (b) for the plain key-switch the EXACT gadget product from the logged key rows "
                 "(key precision <= 16 bits), (c) for every operation the decryption phase of the result against Image_op(phase of the inputs) within the worst-case gadget bound "
-                "(KsFamily.tla); GGSW key-switch / automorphism: column 0 of every row by the GLWE relation, every other column against s_j * phase(column 0) (row expansion through the tensor key, Ggsw.tla), and the result as a valid GGSW of the (mapped) plaintext; automorphism of automorphism keys: a valid key for the product of the Galois elements; GGSW rotation limb-exact; behaviours whose bound exceeds 1/16 of the torus are counted separately; distinct = behaviours" % (n, n_all))
+                "(KsFamily.tla); GGSW key-switch / automorphism: column 0 of every row by the GLWE relation, every other column against s_j * phase(column 0) (row expansion through the tensor key, Ggsw.tla), and the result as a valid GGSW of the (mapped) plaintext; automorphism of automorphism keys: a valid key for the product of the Galois elements; GGSW rotation limb-exact; the streaming packer over add / flush histories (two rounds, presence patterns, every log_batch) against the bit-reversed packing statement that MC_Packer checks the carry chain against; behaviours whose bound exceeds 1/16 of the torus are counted separately; distinct = behaviours" % (n, n_all))
     for e in events[:: max(1, len(events) // 3)][:3]:
         rep.sample({k: e[k] for k in e if k not in ("outs", "key", "tsk", "scr", "a", "sk_in", "sk_out")})
     log("[C03] %d behaviours, %d rejected, %d with vacuous bound" % (len(events), nb, len(vac)))
